@@ -208,11 +208,13 @@ def case_str(a, kind: str, n: int, fill: int):
     return None
 
 
-def case_tag(a, cls: int, constructed: bool, number: int, clen: int):
+def case_tag(a, cls: int, constructed: bool, number: int, clen: int, as_enum: bool = False):
     content = bytes(range(clen % 256)) if clen < 256 else b"\x5a" * clen
     exp = der.tlv(cls, constructed, number, content)
     try:
         tag = _tag(a, cls, constructed, number)
+        if as_enum:  # the universal type number handed over as the TypeTagNumber member instead of a plain int
+            tag = a.ASN1Tag(tag_class=a.TagClass(cls), tag_number=a.TypeTagNumber(number), is_constructed=constructed)
         w = a.ASN1Writer()
         w.write_octet_string(content, tag)
         got = bytes(w.get_data())
@@ -600,6 +602,11 @@ def run_shard(shard, tier, seed, acc) -> None:
                     for clen in (0, 127, 128):
                         _report(acc, case_tag(a, cls, constructed, number, clen), ["tag", cls, constructed, number, clen])
                         n += 1
+        for member in a.TypeTagNumber:
+            for constructed in (False, True):
+                for clen in (0, 5, 128):
+                    _report(acc, case_tag(a, 0, constructed, int(member), clen, True), ["tag", 0, constructed, int(member), clen, True])
+                    n += 1
         acc.ev(n)
         acc.nt_counted(n)
         acc.sample({"tag": [2, True, 2**32], "content_len": 128})
@@ -608,6 +615,20 @@ def run_shard(shard, tier, seed, acc) -> None:
         kinds = KINDS[:3] if tier == "quick" else KINDS
         all_t = trees(2, leaves, kinds)
         part = [x for i, x in enumerate(all_t) if i % 3 == shard[1]]
+        if shard[1] == 0:
+            # wide and comb-shaped trees: many constructed siblings under one parent (100, 101, 150, 1000), and 5 levels of 30 siblings
+            # where only the last child of each level has children - breadth must not be mistaken for depth
+            for width in (100, 101, 150, 1000):
+                for kk in ("seq", "set"):
+                    part.append(("seq", tuple((kk, (("int", i_ % 7),)) for i_ in range(width))))
+            comb: t.Any = ("seq", (("int", 1),))
+            for _lvl in range(5):
+                comb = ("seq", tuple(("seq", (("int", j_ % 3),)) for j_ in range(29)) + (comb,))
+            part.append(comb)
+            chain: t.Any = ("int", 5)
+            for _lvl in range(60):
+                chain = ("seq", (chain,))
+            part.append(chain)
         for tr in part:
             res = case_tree(a, tr)
             if res:
